@@ -20,6 +20,7 @@ import (
 	"maps"
 	"slices"
 	"sort"
+	"unicode/utf16"
 
 	"seehuhn.de/go/pdf/font/charcode"
 )
@@ -80,6 +81,9 @@ func NewToUnicodeFile(csr charcode.CodeSpaceRange, data map[charcode.Code]string
 							break
 						}
 					}
+					if !needsList && lastByteOverflows(data[info[start].code], i-start-1) {
+						needsList = true
+					}
 
 					var values []string
 					if needsList {
@@ -117,6 +121,18 @@ func (tu *ToUnicodeFile) GetMapping() (map[charcode.Code]string, error) {
 	}
 
 	return maps.Collect(tu.All(codec)), nil
+}
+
+// lastByteOverflows reports whether incrementing the last byte of the
+// UTF-16BE form of s by inc goes beyond 255.  A bfrange with a single
+// destination string increments the last byte only, and the mapping is
+// undefined if that byte overflows (ISO 32000-2, 9.10.3).
+func lastByteOverflows(s string, inc int) bool {
+	u := utf16.Encode([]rune(s))
+	if len(u) == 0 {
+		return false
+	}
+	return int(u[len(u)-1]&0xFF)+inc > 255
 }
 
 func nextString(s string, inc int) string {
